@@ -29,6 +29,31 @@ COPYING = {"add", "sub", "mul", "sorted", "sublist", "zip", "reverse",
            "split", "split2", "lines", "words", "first_n", "last_n", "rest",
            "grep", "permutations", "substitute"}
 
+# functions whose result is made of pieces cut from the argument: no piece
+# may be the argument container itself
+NESTED_FRESH = {"chunks", "grouped", "permutations", "pairs", "zip",
+                "enumerate", "split", "split2", "lines", "words"}
+
+
+def contains_object(v, target, depth=0):
+    """identity search for `target` strictly inside container v"""
+    V = core.ckl.values
+    if depth > 6:
+        return False
+    if isinstance(v, V.ValueList):
+        kids = v.value
+    elif isinstance(v, V.ValueSet):
+        kids = list(v.value)
+    elif isinstance(v, V.ValueMap):
+        kids = list(v.value.keys()) + list(v.value.values())
+    elif isinstance(v, V.ValueObject):
+        kids = list(v.value.values())
+    else:
+        return False
+    return any(k is target or contains_object(k, target, depth + 1)
+               for k in kids)
+
+
 _S = {}
 
 
@@ -120,6 +145,19 @@ def explore_calls(chunk):
                              "args": list(t), "identity": True},
                             "a fresh container", "argument %d itself" % k,
                             size=len(t) * 100 + sum(len(x) for x in t))
+            if bname in NESTED_FRESH and o[0] == "value" and \
+                    is_container(o[1]):
+                for k, a in enumerate(args):
+                    if is_container(a) and not core.is_cyclic(a) and \
+                            contains_object(o[1], a):
+                        agg.violation(
+                            {"what": "result-contains-argument",
+                             "callee": fname, "arg": k},
+                            {"kind": "call", "callee": fname,
+                             "args": list(t), "nested": True},
+                            "pieces that are containers of their own",
+                            "argument %d itself inside the result" % k,
+                            size=len(t) * 100 + sum(len(x) for x in t))
             if agg.n["steps"] % 20000 == 1:
                 agg.sample({"call": fname, "args": list(t),
                             "before": before, "after": after}, 3)
@@ -209,6 +247,13 @@ LITERALS = [
     ("<*m = 'ab', n = [1]*>", ["t->m[0] = 'X'", "append(t->n, 2)"]),
     ("[<<1>>, <<<1 => [2]>>>]", ["append(t[0], 2)", "append(t[1][1], 3)"]),
     ("'a' + 'b'", ["t[0] = 'X'"]),
+    # the empty literals (candidates for being folded into one constant)
+    ("[]", ["append(t, 9)", "append_all(t, [7])", "insert_at(t, 0, 9)"]),
+    ("<<>>", ["append(t, 9)"]),
+    ("<<<>>>", ["t['a'] = 2", "put(t, 'b', 3)"]),
+    ("<**>", ["t->n = 5", "t['m'] = 7"]),
+    ("[[]]", ["append(t[0], 5)"]),
+    ("<<<'k' => <<<>>> >>>", ["t['k']['a'] = 1"]),
     ("[x * 2 for x in [1, 2]]", ["t[0] = 9"]),
 ]
 # contexts in which the same literal is evaluated again after a value it
@@ -338,7 +383,7 @@ def literal_pair_equal(text):
 def call_with(s, fn, args):
     env = s.env.newEnv()
     env.put("f", fn)
-    for nm, v in zip("abc", args):
+    for nm, v in zip("abcd", args):
         env.put(nm, v)
     s.session._bind_streams()
     sweep.F.seed = 1
@@ -728,6 +773,9 @@ def replay(case, verbose=False):
                 bad = True
         if case.get("identity") and o[0] == "value":
             bad = bad or any(o[1] is a for a in args)
+        if case.get("nested") and o[0] == "value":
+            bad = bad or any(is_container(a) and not core.is_cyclic(a)
+                             and contains_object(o[1], a) for a in args)
         if verbose:
             print(case, before, after, core.show_raw(o))
         return bad
